@@ -54,6 +54,9 @@ def diag_kernel(run, f, tracked):
     return n
 
 
+_UNSET = object()
+
+
 def support_mask(run, cf, rule='R12.support'):
     """condense(g): the support mask of a string is True on a qubit iff its (x, z) pair is not (0, 0).  The function is executed
     on a one-qubit string for the four letters (loop form: N = 1, the stores into the mask are followed; vector form: g[::2] /
@@ -93,8 +96,10 @@ def support_mask(run, cf, rule='R12.support'):
 
             def call(n, env, rec):
                 fn = norm(n.func).split('.')[-1]
-                if fn in ('zeros', 'zeros_like') :
+                if fn in ('zeros', 'zeros_like'):
                     return False
+                if fn in ('empty', 'empty_like'):
+                    return _UNSET
                 if fn in ('ones', 'ones_like'):
                     return True
                 if isinstance(n.func, ast.Attribute) and not (isinstance(n.func.value, ast.Name) and n.func.value.id in ('numpy', 'torch', 'np')):
@@ -132,6 +137,9 @@ def support_mask(run, cf, rule='R12.support'):
             if not res:
                 raise Undecidable('mask value not produced')
             val = heap.get(mname, res[0])
+            if val is _UNSET:
+                bad = ((x, z), 'never assigned (uninitialised memory)')
+                break
             if bool(val) != bool(x or z):
                 bad = ((x, z), bool(val))
                 break
